@@ -6,7 +6,10 @@ import (
 	"errors"
 	"fmt"
 	"io"
+	"sync"
 )
+
+var inflaters = sync.Pool{New: func() interface{} { return flate.NewReader(bytes.NewReader(nil)) }}
 
 // Inflate is the receiver side of RFC 7692 §7.2.2: append 00 00 ff ff to the
 // message payload and inflate.  Go's flate reader wants a final block, so an
@@ -16,8 +19,10 @@ import (
 func Inflate(wire []byte) ([]byte, error) {
 	const tail = "\x00\x00\xff\xff\x01\x00\x00\xff\xff"
 	src := bytes.NewReader(append(append(make([]byte, 0, len(wire)+len(tail)), wire...), tail...))
-	fr := flate.NewReader(src) // bytes.Reader is an io.ByteReader: flate consumes exactly what it decodes
+	fr := inflaters.Get().(io.ReadCloser) // bytes.Reader is an io.ByteReader: flate consumes exactly what it decodes
+	fr.(flate.Resetter).Reset(src, nil)
 	out, err := io.ReadAll(fr)
+	inflaters.Put(fr)
 	if err != nil {
 		return out, err
 	}
